@@ -143,6 +143,7 @@ def build_impl(s):
         nf = VARIANTS[1:]
         var = nf[(nf.index(var) + VSHIFT) % len(nf)]
     opt = s.get("opt")
+    prev_by = da.rcParams.get("indexing.by")
     if opt:
         da.rcParams["indexing.by"] = opt
     try:
@@ -231,7 +232,10 @@ def build_impl(s):
             a._indexing = opt
         return a
     finally:
-        common.reset_options()
+        # restore only what this builder set itself: option state LEFT BEHIND by an earlier library call must stay visible to the calls
+        # that follow (the engine looks at it after the case, see engine.safe_check)
+        if opt:
+            da.rcParams["indexing.by"] = prev_by
 
 
 VARIANTS = ["fresh", "T", "slice", "take", "ds", "mono", "relabel", "shallow"]
